@@ -221,6 +221,8 @@ def execute(plan, want_refs=True, timeout=120.0, coverage=False):
         for other in g[1:]:
             if is_text(first) or is_text(other):
                 continue          # judged through what is loaded from it, not letter by letter
+            if prop == "C15" and first["op"] in ("sc.translate", "sc.solve"):
+                continue          # node labels are free in C15 ("up to a renaming of nodes"): judged by isomorphism (O5)
             d = C.diff(first["result"], other["result"])
             if d:
                 viol("O3", other, "repeat-differs", f"same call as {first['id']} gave a different result: {d}")
